@@ -225,6 +225,11 @@ func c06ProjectList(budget int, dir string) []c06Proj {
 		f := f
 		out = append(out, c06Proj{"corpus:" + f, func() *impl.Built { return impl.BuildDisk(f) }})
 	}
+	// every 7th / every graph of three user types (typegraphs.go): cyclic references with several faulty types compete
+	// for "the first error"
+	typeGraphDocs(map[bool]int{true: 7, false: 1}[budget <= 2], func(name, text string) {
+		out = append(out, c06Proj{name, func() *impl.Built { return impl.BuildMem("root.jst", text) }})
+	})
 	pal := model.DefaultPalette()
 	i := 0
 	model.EnumDocs(pal, budget, 0, func(d *model.Doc) {
